@@ -5,10 +5,17 @@ import tfimpl
 
 ID = "C04"
 HMODULE = "H_C04"
-RULE = ("PWLCalibrationConstraints over monotonicity {-1,0,1} x convexity {-1,0,1} x bounds {none,min,max,both} x "
-        "clamp_min/clamp_max (monotone only) x units 1-3 x 2-7 keypoints with segment lengths in {1/2,1,2,3} x "
+RULE = ("PWLCalibrationConstraints over monotonicity {-1,0,1} x convexity {-1,0,1} x bounds {none,min,max,both; a "
+        "share with one bound exactly 0.0 and a share with ZERO WIDTH output_min == output_max} x "
+        "clamp_min/clamp_max (monotone only) x units 1-4 x 2-7 keypoints (one case in ten: 8-10) with segment "
+        "lengths in {1/2,1,2,3} (one case in ten mixes in segments of length 1/8) x "
         "num_projection_iterations {0,1,2,3,8,12}; kernel classes: random, far (bias far outside the bounds), "
-        "wrong-sign heights, ties/zeros, near-feasible; a fifth of the cases go through a built PWLCalibration "
+        "wrong-sign heights, ties/zeros, near-feasible, feasible, and - for monotone + convex/concave + bounded "
+        "configurations with num_projection_iterations = 0 - squeeze9/10/11: the bias sits 2^-9, 2^-10, 2^-11 "
+        "inside the bound the heights run towards (output_max for increasing, output_min for decreasing), so "
+        "that _squeeze_by_scaling's guard delta > 0.001 is entered with delta 0.00195 and not entered with "
+        "0.00098 / 0.00049 (the cases not entered violate the bounds and are known finding D2); a fifth of the "
+        "cases go through a built PWLCalibration "
         "layer (string spellings, convert_all_constraints). NaiveBoundsConstraints on random vectors. "
         "Non-trivial = the projection changed the kernel; distinct = distinct (config, kernel).")
 TRUSTED = ["model: Model/PWLProject.v (hand-written from pwl_calibration_lib.project_all_constraints, "
@@ -18,10 +25,15 @@ TRUSTED = ["model: Model/PWLProject.v (hand-written from pwl_calibration_lib.pro
            "tie: PWLCalibrationConstraints / layer.kernel.constraint called on float64 kernels; compared in Coq"]
 LIMITS = ["tolerated by the property: convexity with bounds but without monotonicity may keep a residual convexity "
           "violation; a clamp combined with convexity is met only up to the residual of the iteration",
-          "float rounding outside the model (tolerance 1e-9)"]
+          "float rounding outside the model (tolerance 1e-9)",
+          "the guard constant 0.001 of _squeeze_by_scaling is bracketed by deltas 2^-10 and 2^-9 only: a change of "
+          "the constant within (0.00098, 0.00195) is not seen by the generated cases"]
 SHARD = 120
 
 BCT = ["NONE", "BOUND", "CLAMPED"]
+
+
+SQUEEZE_GAPS = {"squeeze9": 2.0 ** -9, "squeeze10": 2.0 ** -10, "squeeze11": 2.0 ** -11}
 
 
 def gen_descs(ctx):
@@ -30,27 +42,50 @@ def gen_descs(ctx):
   for _ in range(ctx.n(600, 6000)):
     mono = rng.choice([-1, 0, 1, 1])
     conv = rng.choice([-1, 0, 0, 1])
-    nk = rng.randint(2, 7)
+    # one case in ten has 8-10 keypoints
+    nk = rng.randint(8, 10) if rng.random() < 0.1 else rng.randint(2, 7)
     lengths = [rng.choice([0.5, 1.0, 1.0, 2.0, 3.0]) for _ in range(nk - 1)]
-    if rng.random() < 0.3:
+    c = rng.random()
+    if c < 0.3:
       lengths = [1.0] * (nk - 1)
+    elif c < 0.4:
+      # short segments (1/8) next to long ones: slope = height / length differs from the height by a factor 8-24
+      lengths = [0.125 if rng.random() < 0.4 else ln for ln in lengths]
     bmode = rng.choice(["none", "min", "max", "both", "both"])
     a = tfimpl.dy(rng, -4, 4)
     omin = a if bmode in ("min", "both") else None
     omax = a + rng.choice([0.5, 1.0, 4.0, 8.0]) if bmode in ("max", "both") else None
     omin, omax = tfimpl.zero_bound(rng, omin, omax)
-    clamp_min = bool(mono != 0 and omin is not None and rng.random() < 0.4)
-    clamp_max = bool(mono != 0 and omax is not None and rng.random() < 0.4)
-    units = rng.choice([1, 1, 2, 3])
+    if bmode == "both" and rng.random() < 0.12:
+      # zero-width range output_min == output_max (incl. 0.0 == 0.0): the only feasible function is constant
+      omax = omin
+    units = rng.choice([1, 1, 2, 3, 1, 1, 2, 3, 4])
     iters = rng.choice([0, 1, 2, 3, 8, 12])
     klass = rng.choice(["random", "random", "far", "wrongsign", "ties", "near", "feasible"])
+    if mono != 0 and conv != 0 and rng.random() < 0.35:
+      # _squeeze_by_scaling alone (no Dykstra iteration): the bias sits 2^-9 / 2^-10 / 2^-11 inside the bound
+      # that the heights run towards, i.e. delta = 0.00195 (> 0.001: heights are scaled into the gap),
+      # 0.00098 and 0.00049 (<= 0.001: everything is kept); separates the constant 0.001 from 0 and from 0.01
+      klass = rng.choice(sorted(SQUEEZE_GAPS))
+      iters = 0
+      if mono == 1 and omax is None:
+        omax = (omin if omin is not None else a) + rng.choice([0.0, 0.5, 1.0, 4.0])
+      if mono == -1 and omin is None:
+        omin = (omax if omax is not None else a) - rng.choice([0.0, 0.5, 1.0, 4.0])
+    clamp_min = bool(mono != 0 and omin is not None and rng.random() < 0.4)
+    clamp_max = bool(mono != 0 and omax is not None and rng.random() < 0.4)
     W = []
     if klass == "feasible":
       W = feasible_kernel(rng, mono, lengths, omin, omax, clamp_min, clamp_max, units)
     for r in range(nk if klass != "feasible" else 0):
       row = []
       for u in range(units):
-        if klass == "far":
+        if klass in SQUEEZE_GAPS:
+          if r == 0:
+            v = omax - SQUEEZE_GAPS[klass] if mono == 1 else omin + SQUEEZE_GAPS[klass]
+          else:
+            v = mono * rng.choice([0.0, 0.125, 0.25, 1.0, abs(tfimpl.dy(rng, 0, 4)), -0.5])
+        elif klass == "far":
           v = tfimpl.dy(rng, -64, 64) if r == 0 else tfimpl.dy(rng, -16, 16)
         elif klass == "wrongsign":
           v = tfimpl.dy(rng) if r == 0 else -abs(tfimpl.dy(rng)) * (mono or 1)
@@ -220,6 +255,11 @@ def eval_cases(ctx, descs):
     moved = np.abs(R - W).max() > 1e-12
     klass = "m%d_c%d_%s%s_%s%s" % (d["mono"], d["conv"], "b" if d["omin"] is not None else "", "B" if d["omax"] is not None else "",
                                     "cl_" if d["clamp_min"] or d["clamp_max"] else "", d["wclass"])
+    # z: output_min == output_max, k: 8-10 keypoints, u: 4 units, s: a segment of length 1/8
+    extra = (("z" if d["omin"] is not None and d["omin"] == d["omax"] else "") + ("k" if len(d["lengths"]) >= 7 else "") +
+             ("u" if d["units"] >= 4 else "") + ("s" if 0.125 in d["lengths"] else ""))
+    if extra:
+      klass += "_x" + extra
     cases.append(Case(d, coq=coq, pred_fail="; ".join(fails) if fails else None, nontrivial=bool(moved), klass=klass,
                       info={"impl_output": [[float(v) for v in r] for r in R]}))
   return cases
